@@ -37,6 +37,10 @@ type (
 	HashedTable struct {
 		Rows map[string][]*any
 		Keys map[string]*Map
+		// Order lists the keys in order of first appearance: the join walks
+		// the key groups in this order, so that its output - and what a LIMIT
+		// cuts from it - is the same on every run
+		Order []string
 	}
 )
 
@@ -90,6 +94,7 @@ func ToCatalog(rows []any, ident string, identRight string, joinExpr sqlparser.E
 		if _, ok := hashedTable.Keys[hash]; !ok {
 			hashedTable.Rows[hash] = make([]*any, 0)
 			hashedTable.Keys[hash] = &mapper
+			hashedTable.Order = append(hashedTable.Order, hash)
 		}
 		hashedTable.Rows[hash] = append(hashedTable.Rows[hash], &r)
 	}
@@ -188,7 +193,7 @@ func (j *Join) HashJoin() ([]any, error) {
 
 func (j *Join) HashJoinFunc(l, r *HashedTable) ([]any, error) {
 	slice := make([]any, 0)
-	for lk := range l.Rows {
+	for _, lk := range l.Order {
 		switch ok, matches, err := j.HashJoinMatchFunc(lk, l, r); {
 		case ok:
 			{
@@ -210,7 +215,8 @@ func (j *Join) HashJoinFunc(l, r *HashedTable) ([]any, error) {
 func (j *Join) JoinFunc(l, r *HashedTable) ([]any, error) {
 	var mut sync.Mutex
 	slice := make([]any, 0)
-	for lk, lv := range l.Keys {
+	for _, lk := range l.Order {
+		lv := l.Keys[lk]
 		switch ok, matches, err := j.JoinMatchFunc(lk, lv, l, r); {
 		case ok:
 			{
@@ -235,11 +241,14 @@ func (j *Join) ParallelJoinFunc(l, r *HashedTable) ([]any, error) {
 	var mut sync.Mutex
 	var wg sync.WaitGroup
 	var firstErr error
-	slice := make([]any, 0)
+	// one slot per key group, filled by its goroutine and put together in
+	// key order afterwards
+	parts := make([][]any, len(l.Order))
 
-	for lk, lv := range l.Keys {
+	for i, lk := range l.Order {
+		lv := l.Keys[lk]
 		wg.Add(1)
-		go func(lk string, lv *map[string]any) {
+		go func(i int, lk string, lv *map[string]any) {
 			defer wg.Done()
 			defer func() {
 				if r := recover(); r != nil {
@@ -255,9 +264,7 @@ func (j *Join) ParallelJoinFunc(l, r *HashedTable) ([]any, error) {
 			case ok:
 				{
 					verifPoint("join.par.append")
-					mut.Lock()
-					slice = append(slice, matches...)
-					mut.Unlock()
+					parts[i] = matches
 				}
 			case !ok && err != nil:
 				{
@@ -268,11 +275,15 @@ func (j *Join) ParallelJoinFunc(l, r *HashedTable) ([]any, error) {
 					break
 				}
 			}
-		}(lk, lv)
+		}(i, lk, lv)
 	}
 	wg.Wait()
 	if firstErr != nil {
 		return nil, firstErr
+	}
+	slice := make([]any, 0)
+	for _, part := range parts {
+		slice = append(slice, part...)
 	}
 	return slice, nil
 }
@@ -280,7 +291,8 @@ func (j *Join) ParallelJoinFunc(l, r *HashedTable) ([]any, error) {
 func (j *Join) JoinMatchFunc(lk string, lv *map[string]any, l, r *HashedTable) (bool, []any, error) {
 	slice := make([]any, 0)
 	b := false
-	for rk, rv := range r.Keys {
+	for _, rk := range r.Order {
+		rv := r.Keys[rk]
 		_current := make(Map)
 		maps.Copy(_current, *lv)
 		maps.Copy(_current, *rv)
@@ -347,10 +359,10 @@ func (j *Join) ParallelHashJoinFunc(l, r *HashedTable) ([]any, error) {
 	var mut sync.Mutex
 	var wg sync.WaitGroup
 	var firstErr error
-	slice := make([]any, 0)
-	for lk := range l.Rows {
+	parts := make([][]any, len(l.Order))
+	for i, lk := range l.Order {
 		wg.Add(1)
-		go func(lk string) {
+		go func(i int, lk string) {
 			defer wg.Done()
 			defer func() {
 				if r := recover(); r != nil {
@@ -366,9 +378,7 @@ func (j *Join) ParallelHashJoinFunc(l, r *HashedTable) ([]any, error) {
 			case ok:
 				{
 					verifPoint("join.par.append")
-					mut.Lock()
-					slice = append(slice, matches...)
-					mut.Unlock()
+					parts[i] = matches
 				}
 			case !ok && err != nil:
 				{
@@ -379,11 +389,15 @@ func (j *Join) ParallelHashJoinFunc(l, r *HashedTable) ([]any, error) {
 					break
 				}
 			}
-		}(lk)
+		}(i, lk)
 	}
 	wg.Wait()
 	if firstErr != nil {
 		return nil, firstErr
+	}
+	slice := make([]any, 0)
+	for _, part := range parts {
+		slice = append(slice, part...)
 	}
 	return slice, nil
 }
